@@ -1603,7 +1603,8 @@ REF_FCN static REF_STATUS ref_gather_scalar_rst(REF_GRID ref_grid, REF_INT ldim,
         if (REF_SUCCESS == status &&
             ref_mpi_rank(ref_mpi) == ref_node_part(ref_node, local)) {
           for (im = 0; im < variables; im++)
-            local_xyzm[im + (variables + 1) * i] = scalar[im + ldim * local];
+            local_xyzm[im + (variables + 1) * i] =
+                scalar[im + step * variables + ldim * local];
           local_xyzm[variables + (variables + 1) * i] = 1.0;
         } else {
           for (im = 0; im < (variables + 1); im++)
